@@ -47,8 +47,8 @@ func VP_C02_verify() {
 		if vpTokNbf != nil {
 			vpAssert(int64(*vpTokNbf) <= now+60, "accepted-cookie-already-valid")
 		}
-		vpAssert(vpIdpCalls == 1 && vpIdpToken == vpTokCustom.AccessToken, "idp-asked-about-the-embedded-access-token")
-		vpAssert(vpBool("idp-honours-token"), "accepted-only-if-idp-honours-the-token")
+		vpAssert(vpIdpCalls >= 1 && vpIdpToken == vpTokCustom.AccessToken, "idp-asked-about-the-embedded-access-token")
+		vpAssert(vpIdpHonoured && vpBool("idp-honours-token"), "accepted-only-if-idp-honours-the-token")
 		// the tunnel is bound to exactly the verified claims (C04: address recorded at issuance)
 		vpAssert(tun.TargetServer == vpTokCustom.RemoteServer, "tunnel-host-is-the-verified-host-claim")
 		vpAssert(tun.RemoteAddr == vpTokCustom.ClientIP, "tunnel-address-is-the-verified-address-claim")
@@ -57,7 +57,7 @@ func VP_C02_verify() {
 		if vpTokKind == 1 && vpTokSignedBy != vpKeyPAASign {
 			vpReach("rejected-mac")
 		}
-		if vpIdpCalls == 1 {
+		if vpIdpCalls >= 1 {
 			vpReach("rejected-idp")
 		}
 	}
@@ -71,7 +71,7 @@ func VP_C02_verify() {
 		vpAssert(!ok, "expired-cookie-is-rejected")
 	}
 	// a well-formed, correctly signed, unexpired, IdP-valid cookie IS accepted (no over-rejection)
-	if cookie != "" && vpTokKind == 1 && vpTokSignedBy == vpKeyPAASign && vpTokIssuer == "rdpgw" && vpTokExp == nil && vpTokNbf == nil && vpTokIat == nil && vpIdpCalls == 1 && vpBool("idp-honours-token") {
+	if cookie != "" && vpTokKind == 1 && vpTokSignedBy == vpKeyPAASign && vpTokIssuer == "rdpgw" && vpTokExp == nil && vpTokNbf == nil && vpTokIat == nil && vpIdpCalls >= 1 && vpIdpTimeouts == 0 && vpBool("idp-honours-token") {
 		vpAssert(ok, "valid-cookie-is-accepted")
 	}
 }
